@@ -15,6 +15,7 @@ import (
 	"net/url"
 	"reflect"
 	"regexp"
+	"runtime/debug"
 	"sort"
 	"strings"
 	"time"
@@ -36,6 +37,7 @@ import (
 	"github.com/megaease/easegress/pkg/supervisor"
 	"github.com/megaease/easegress/pkg/tracing"
 	"github.com/megaease/easegress/pkg/util/jsontool"
+	"github.com/megaease/easegress/pkg/util/yamltool"
 	"github.com/megaease/easegress/pkg/v"
 )
 
@@ -295,7 +297,24 @@ func Stage(obs *Obs, class, at string, f func()) (ok bool) {
 			if len(m) > 300 {
 				m = m[:300]
 			}
-			obs.PanicMsg = m
+			// innermost frames of the code under test (debugging only, never compared)
+			var fr []string
+			for _, ln := range strings.Split(string(debug.Stack()), "\n") {
+				if strings.Contains(ln, "/pkg/") && strings.Contains(ln, ".go:") && !strings.Contains(ln, "zzverifc13") && !strings.Contains(ln, "zz_verif") {
+					ln = strings.TrimSpace(ln)
+					if i := strings.Index(ln, "/pkg/"); i >= 0 {
+						ln = ln[i+1:]
+					}
+					if j := strings.Index(ln, " +0x"); j >= 0 {
+						ln = ln[:j]
+					}
+					fr = append(fr, ln)
+					if len(fr) >= 4 {
+						break
+					}
+				}
+			}
+			obs.PanicMsg = m + " @ " + strings.Join(fr, " < ")
 			ok = false
 		}
 	}()
@@ -754,4 +773,74 @@ func RunPolicy(pol resilience.Policy, obs *Obs) {
 			return
 		}
 	}
+}
+
+// ---------------------------------------------------------------------------
+// objects (HTTPServer, GlobalFilter, MQTTProxy): the in-package harness supplies
+// the constructors, this file the common observation steps.
+
+// ObjectEntry describes one object kind to ObserveObject.
+type ObjectEntry struct {
+	Kind       string
+	NewDefault func() interface{}                               // DefaultSpec()
+	Skip       func(spec interface{}) string                    // "" = instantiate
+	Run        func(super *supervisor.Spec, in *In, obs *Obs)   // Create + Init + requests, under Stage
+	Pats       []string                                         // schema patterns of the spec type
+	ExtraTrees func(spec interface{}) []interface{}             // more documents for the string oracle
+}
+
+// ObserveObject runs one object case on the real code (supervisor.NewSpec).
+func ObserveObject(e *ObjectEntry, in *In, inst bool) *Obs {
+	obs := &Obs{}
+	yb, err := yaml2.Marshal(in.Doc)
+	if err != nil {
+		obs.DecodeErr = true
+		return obs
+	}
+	var ospec interface{}
+	func() {
+		defer func() {
+			if r := recover(); r != nil {
+				obs.DecodeErr = true
+				obs.Errs = fmt.Sprint(r)
+				if len(obs.Errs) > 300 {
+					obs.Errs = obs.Errs[:300]
+				}
+			}
+		}()
+		meta := &supervisor.MetaSpec{Version: supervisor.DefaultSpecVersion}
+		yamltool.Unmarshal(yb, meta)
+		obs.MetaOK = v.Validate(meta).Valid()
+		obs.KindKnown = meta.Kind == e.Kind
+		if !obs.KindKnown {
+			return
+		}
+		s := e.NewDefault()
+		yamltool.Unmarshal(yb, s)
+		ospec = s
+	}()
+	trees := []interface{}{in.Doc}
+	if ospec != nil && !obs.DecodeErr {
+		obs.Norm, _ = NormDoc(ospec)
+		RecordValidate(ospec, obs)
+		trees = append(trees, obs.Norm)
+		if e.ExtraTrees != nil {
+			trees = append(trees, e.ExtraTrees(ospec)...)
+		}
+	}
+	in.Orc = ComputeOrcP(e.Pats, trees...)
+	super, err := supervisor.NewSpec(string(yb))
+	obs.Accepted = err == nil
+	if err != nil || !inst {
+		return obs
+	}
+	if e.Skip != nil {
+		if why := e.Skip(super.ObjectSpec()); why != "" {
+			obs.Inst = "skipped: " + why
+			return obs
+		}
+	}
+	obs.Inst = "ok"
+	e.Run(super, in, obs)
+	return obs
 }
